@@ -75,6 +75,40 @@ func VP_C04_enrich() {
 	vpAssert(ra == peer, "remote-address-attribute-is-the-tcp-peer")
 }
 
+//vp:property C04
+//vp:bounds X-Forwarded-For made of address literals: the first element one of {10.1.2.d, 127.0.0.d, 169.254.1.d, 192.168.0.d, 172.16.0.d, 100.64.0.d, fc00::d, ::1, fe80::d, 203.0.113.d, 2001:db8::d, "unknown"} with d a symbolic decimal digit, followed by 0..2 further elements (203.0.113.7, 10.0.0.1), separated by "," or ", "
+//vp:reach literal
+func VP_C04_enrich_literals() {
+	vpResetWeb()
+	sessionStore = vpNewStore()
+	d := vpU8("digit")
+	vpAssume(vpAnd(d >= '0', d <= '9'))
+	ds := string([]byte{d})
+	first := []string{"10.1.2." + ds, "127.0.0." + ds, "169.254.1." + ds, "192.168.0." + ds, "172.16.0." + ds, "100.64.0." + ds,
+		"fc00::" + ds, "::1", "fe80::" + ds, "203.0.113." + ds, "2001:db8::" + ds, "unknown"}[vpIntRange("first-element", 0, 11)]
+	sep := []string{",", ", "}[vpIntRange("separator", 0, 1)]
+	xff := first
+	switch vpIntRange("further-elements", 0, 2) {
+	case 1:
+		xff += sep + "203.0.113.7"
+	case 2:
+		xff += sep + "203.0.113.7" + sep + "10.0.0.1"
+	}
+	var seen identity.Identity
+	next := http.HandlerFunc(func(w http.ResponseWriter, r *http.Request) { seen = identity.FromRequestCtx(r) })
+	r := vpRequest("GET", http.Header{"X-Forwarded-For": {xff}}, nil)
+	r.RemoteAddr = "192.0.2.9:4242"
+	EnrichContext(next).ServeHTTP(vpNewRW(), r)
+	vpAssert(seen != nil, "next-handler-reached-with-an-identity")
+	if seen == nil {
+		return
+	}
+	vpReach("literal")
+	got, _ := seen.GetAttribute(identity.AttrClientIp).(string)
+	vpObserveStr("clientIp", got)
+	vpAssert(got == first, "client-address-is-the-first-forwarded-for-element-whatever-kind-of-address-it-is")
+}
+
 //vp:property C04 C12
 //vp:bounds one browser session, two requests: the first from peer address A (no X-Forwarded-For) after which the identity is saved into the session as the login callback does; the second from peer B, with or without an X-Forwarded-For value of <= 3 ASCII bytes
 //vp:reach second
@@ -120,4 +154,58 @@ func VP_C04_enrich_twice() {
 	} else {
 		vpAssert(got == "198.51.100.7", "client-address-is-the-current-requests-peer-not-the-login-address")
 	}
+}
+
+
+//vp:property C07 C04
+//vp:bounds one browser session whose identity was saved at login (user "alice"); then two gateway requests with that session cookie from different peers (each with or without an X-Forwarded-For value of <= 2 ASCII bytes). The identity handed to the first request is kept (a tunnel keeps it as Tunnel.User) while the second request is served and its identity is renamed, as an accepted access cookie does
+//vp:reach both
+func VP_C07_session_identities() {
+	vpResetWeb()
+	vpSnaps = nil
+	sessionStore = vpNewStore()
+	var seen identity.Identity
+	next := http.HandlerFunc(func(w http.ResponseWriter, r *http.Request) { seen = identity.FromRequestCtx(r) })
+	r1 := vpRequest("GET", http.Header{}, nil)
+	r1.RemoteAddr = "192.0.2.10:4000"
+	EnrichContext(next).ServeHTTP(vpNewRW(), r1)
+	if seen == nil {
+		return
+	}
+	seen.SetUserName("alice")
+	seen.SetAuthenticated(true)
+	vpAssert(SaveSessionIdentity(r1, vpNewRW(), seen) == nil, "identity-saved")
+	mk := func(peer, tag string) (identity.Identity, string) {
+		hdr := http.Header{}
+		want := peer
+		if vpBool("xff-" + tag) {
+			x := vpString("xffv-"+tag, 2)
+			for i := 0; i < len(x); i++ {
+				vpAssume(x[i] < 0x80)
+			}
+			hdr["X-Forwarded-For"] = []string{x}
+			if x != "" {
+				want = vpFirstXFF(x)
+			}
+		}
+		r := vpRequest("GET", hdr, nil)
+		r.RemoteAddr = peer + ":5000"
+		seen = nil
+		EnrichContext(next).ServeHTTP(vpNewRW(), r)
+		return seen, want
+	}
+	idA, wantA := mk("198.51.100.7", "a")
+	idB, wantB := mk("203.0.113.9", "b")
+	if idA == nil || idB == nil {
+		return
+	}
+	vpReach("both")
+	idB.SetUserName("bob") // the second tunnel's access cookie names another user
+	gotA, _ := idA.GetAttribute(identity.AttrClientIp).(string)
+	gotB, _ := idB.GetAttribute(identity.AttrClientIp).(string)
+	vpAssert(gotA == wantA, "first-requests-identity-keeps-its-own-client-address")
+	vpAssert(gotB == wantB, "second-requests-identity-has-its-own-client-address")
+	vpAssert(idA.UserName() == "alice", "first-requests-identity-keeps-its-user-name")
+	raA, _ := idA.GetAttribute(identity.AttrRemoteAddr).(string)
+	vpAssert(raA == "198.51.100.7:5000", "first-requests-identity-keeps-its-peer-address")
 }
